@@ -111,7 +111,7 @@ def step (c : Cfg) (s : State) : Ev → Option State
         some (if c.locked then settle s₂ s₂.waiters else s₂)
   | .disconnect =>
     if !s.registered then none
-    else some { s with registered := false, doomed := s.doomed ++ s.awaiting.map (·.id) }
+    else some { s with registered := false, owner := none, doomed := s.doomed ++ s.awaiting.map (·.id) }
   | .register =>
     if s.registered then none
     else some { s with registered := true, reconnects := s.reconnects + 1, owner := none,
